@@ -413,13 +413,19 @@ class Facts:
             eff = Effect(c, fn, bind, chain, self, outer, owith, path)
             if pred(eff):
                 out.append(eff)
-            if depth > 0:
+            callee = self.flow.resolve_call(c, fn) if depth > 0 else None
+            part = False
+            if depth <= 0:
                 callee = self.flow.resolve_call(c, fn)
+                part = callee is not None and self.private_part(callee, fn)
+                if not part:
+                    callee = None
+            if depth > 0 or part:
                 if callee is not None:
                     b = self.flow._bind_args(c, callee, fn, bind, 0, set())
                     if self._is_nested_in(callee, fn):
                         nested_called.add(callee.fq)
-                    self._effects(callee, b, pred, depth - 1,
+                    self._effects(callee, b, pred, max(depth - 1, 0),
                                   chain + (callee.qualname,), stack, out,
                                   outer | frozenset(self.control(
                                       c, fn, bind)),
@@ -427,7 +433,8 @@ class Facts:
                                       c, fn, bind)), path + ((fn, c),))
                 # repository functions passed as values (callbacks,
                 # functools.partial, map, ...): unbound
-                for a in list(c.args) + [k.value for k in c.keywords]:
+                for a in (list(c.args) + [k.value for k in c.keywords]
+                          if depth > 0 else []):
                     if isinstance(a, (ast.Name, ast.Attribute)):
                         try:
                             r = self.repo.resolve_expr(
@@ -454,6 +461,44 @@ class Facts:
                               owith | frozenset(self.withs(n, fn, bind)),
                               path + ((fn, n),))
 
+    def private_part(self, callee, fn):
+        """callee is a private helper (leading underscore, same module) all
+        of whose call sites are in fn (or in callee itself): extracting it
+        from fn -- or inlining it back -- changes no fact about fn, so it
+        is analysed as part of fn at any depth."""
+        memo = self.__dict__.setdefault('_pp_memo', {})
+        key = (callee.fq, fn.fq)
+        if key in memo:
+            return memo[key]
+        name = callee.node.name
+        ok = name.startswith('_') and not (
+            name.startswith('__') and name.endswith('__')) and \
+            callee.module is fn.module and callee is not fn
+        if ok:
+            try:
+                callers = Q.find_callers(self.repo, callee, by_name_ok=False)
+            except Exception:
+                callers = []
+            ok = bool(callers)
+            for m, c, exact in callers:
+                g = self.repo.enclosing_func(c)
+                while g is not None and g is not fn and g is not callee and \
+                        self._is_nested_somewhere(g):
+                    g = self.repo.enclosing_func(g.node)
+                if g is not fn and g is not callee:
+                    ok = False
+                    break
+        memo[key] = ok
+        return ok
+
+    def _is_nested_somewhere(self, g):
+        p = getattr(g.node, '_parent', None)
+        while p is not None:
+            if isinstance(p, (ast.FunctionDef, ast.AsyncFunctionDef)):
+                return True
+            p = getattr(p, '_parent', None)
+        return False
+
     def _is_nested_in(self, callee, fn):
         p = getattr(callee.node, '_parent', None)
         while p is not None:
@@ -476,6 +521,10 @@ class Facts:
                 if isinstance(n, (ast.FunctionDef, ast.AsyncFunctionDef)) \
                         and n is not f.node and getattr(n, '_func', None):
                     go(n._func, d)
+            for c in (Q.calls(f.node, nested=False) if d <= 0 else []):
+                callee = self.flow.resolve_call(c, f)
+                if callee is not None and self.private_part(callee, f):
+                    go(callee, 0)
             if d > 0:
                 for c in Q.calls(f.node, nested=False):
                     callee = self.flow.resolve_call(c, f)
@@ -506,15 +555,17 @@ class Facts:
                 return
             seen.add(key)
             out.append((f, b, path))
-            if d > 0:
+            if True:
                 for c0 in Q.calls(f.node, nested=False):
                     callee = self.flow.resolve_call(c0, f)
                     if callee is None:
                         continue
+                    if d <= 0 and not self.private_part(callee, f):
+                        continue
                     for b_ in self.spec_binds(c0, f, b):
                         cb = self.flow._bind_args(c0, callee, f, b_, 0,
                                                   set())
-                        go(callee, cb, d - 1, stack | {f.fq},
+                        go(callee, cb, max(d - 1, 0), stack | {f.fq},
                            path + ((f, c0),))
         go(fn, None, depth, frozenset(), ())
         return out
@@ -536,12 +587,13 @@ class Facts:
                 if isinstance(n, (ast.FunctionDef, ast.AsyncFunctionDef)) \
                         and n is not f.node and getattr(n, '_func', None):
                     go(n._func, None, d, stack | {f.fq})
-            if d > 0:
+            if True:
                 for c in Q.calls(f.node, nested=False):
                     callee = self.flow.resolve_call(c, f)
-                    if callee is not None:
+                    if callee is not None and (
+                            d > 0 or self.private_part(callee, f)):
                         cb = self.flow._bind_args(c, callee, f, b, 0, set())
-                        go(callee, cb, d - 1, stack | {f.fq})
+                        go(callee, cb, max(d - 1, 0), stack | {f.fq})
         go(fn, None, depth, frozenset())
         return out
 
